@@ -232,6 +232,13 @@ impl<H: Hasher> BatchMerkleProof<H> {
                 i += 1;
             }
         }
+
+        // make sure all nodes of the proof were used: a proof carrying nodes which do not
+        // contribute to the root is not the proof of these openings
+        if proof_pointers.iter().zip(self.nodes.iter()).any(|(&used, nodes)| used != nodes.len()) {
+            return Err(MerkleTreeError::InvalidProof);
+        }
+
         v.remove(&1).ok_or(MerkleTreeError::InvalidProof)
     }
 
